@@ -267,12 +267,16 @@ func (s *Service) UnmarshalJSON(data []byte) error {
 	s.active = NewLoadBalancer(activeTargets)
 	s.active.MarkAllHealthy()
 
-	rolloutTargets, err := NewTargetList(ms.RolloutTargets, ms.TargetOptions)
-	if err != nil {
-		return err
+	// A service has a rollout load balancer only once rollout targets have
+	// been deployed; a rollout split cannot be set before that.
+	if len(ms.RolloutTargets) > 0 {
+		rolloutTargets, err := NewTargetList(ms.RolloutTargets, ms.TargetOptions)
+		if err != nil {
+			return err
+		}
+		s.rollout = NewLoadBalancer(rolloutTargets)
+		s.rollout.MarkAllHealthy()
 	}
-	s.rollout = NewLoadBalancer(rolloutTargets)
-	s.rollout.MarkAllHealthy()
 
 	return s.initialize()
 }
